@@ -169,12 +169,12 @@ Qed.
 
 (* ---------- the function in mask-structured form *)
 Theorem join_as_mask p : length (equal_mask p) < length (dt p) ->
-  join_equal_segments fadd p =
+  join_core fadd p =
   (map (fun r => del_mask r (equal_mask p)) (c_coeffs p),
    map (fun r => del_mask r (equal_mask p)) (n_coeffs p),
    join_dt [] (dt p) (equal_mask p)).
 Proof.
-  intros HL. unfold join_equal_segments, equal_ind.
+  intros HL. unfold join_core, equal_ind.
   destruct (nonzero (equal_mask p)) eqn:E.
   - unfold nonzero in E. f_equal; [f_equal|].
     + symmetry. rewrite <- (map_id (c_coeffs p)) at 2. apply map_ext. intros r. apply del_mask_all_false; assumption.
